@@ -101,6 +101,9 @@ static void build_rb(void)
 {
 	LOAD_IN();
 	ASSUME(IN.n <= RB_MAXN);
+#ifdef RB_CAP
+	ASSUME(IN.n <= RB_CAP);	/* tighter bound of this unit (stated in its level) */
+#endif
 	ASSUME(IN.start <= IN.end && IN.end <= IN.real_end);
 	ASSUME(IN.real_end - IN.start < (1ULL << 62));
 	for (int i = 0; i < RB_MAXN; i++) {
